@@ -42,8 +42,12 @@ def gen_case(rng, tier, avoid):
             okw['origin_reference'] = [3, 7, 130][li % 3] + li
         spec.origin(lfi, nm='ORIGIN-%d' % li, **okw)
         used = set()
-        for _ in range(rng.choice([1, 2, 2, 3]) if n_lf == 1 else rng.choice([1, 1, 2])):
-            gen.frame_block(spec, lfi, rng, used=used, max_width=4)
+        nfr = rng.choice([1, 2, 2, 3]) if n_lf == 1 else rng.choice([1, 1, 2])
+        own_sets = nfr > 1 and rng.random() < 0.5      # each frame with its own channel / frame set, channel names reused across frames
+        fused = set()
+        for k in range(nfr):
+            gen.frame_block(spec, lfi, rng, used=set() if own_sets else used, max_width=4,
+                            set_name='F%d_%d' % (li, k) if own_sets else None, frame_used=fused)
         if rng.random() < 0.4:
             spec.no_format(lfi, 'NF', [gen.payload(rng, mrl - 8) for _ in range(rng.choice([1, 2]))])
         genmeta.populate(spec, lfi, rng, n=rng.choice([0, 1, 3]), routes=False, p_attr=0.3,
@@ -52,11 +56,11 @@ def gen_case(rng, tier, avoid):
         if naming == 'distinct' or (naming == 'partial' and rng.random() < 0.5):
             for op in ops:
                 if op.get('op') == 'add':
-                    op['kwargs']['set_name'] = 'S%d' % li
+                    op['kwargs'].setdefault('set_name', 'S%d' % li)
         elif naming == 'partial':
             for op in ops:
                 if op.get('op') == 'add' and op['kind'] in ('origin', 'channel', 'frame'):
-                    op['kwargs']['set_name'] = 'S%d' % li
+                    op['kwargs'].setdefault('set_name', 'S%d' % li)
         order = rng.choice(['as_is', 'as_is', 'origin_last', 'shuffle'])
         if 'cross_lf_backfill' in avoid and n_lf > 1:
             order = 'as_is'
